@@ -49,4 +49,23 @@ PROPS = {
             sub("derived", "c16_grid", 8000, 120000),
             sub("migrate_g2p", "c16_grid", 4000, 60000),
         ]),
+    "C06": dict(
+        level="exploration",
+        rule=("rapidcheck-generated point sets (1-3D, n<=80, lattice+jitter with distinct locations, clustered 30%), targets, radius, anisotropy "
+              "coefficients and rotation, nmini/nmaxi/nsect/nsmax, selections, NA values, cross-validation and k-fold modes, Date/Code/Bench/Faults "
+              "checkers, ball search on/off; NeighMoving::select, krigtest().nbgh and test_neigh() are compared as sets/values with an executable "
+              "brute-force definition in the harness (ties and boundaries removed by construction with >=1e-6 relative margins); ball-tree k-NN "
+              "(d<=5, n<=500, leaf 1-40, k<=n) vs sorted brute force; non-trivial = a sector quota or nmaxi removes a qualifying sample, or a "
+              "checker / the cross-validation exclusion removes a sample inside the search ellipsoid (k<n for k-NN); distinct = hash of "
+              "(ndim, n, modes, nsect, nsmax, nmaxi, nmini, ball flag, checkers, quantised coefficients/angles, set sizes)"),
+        assumptions=["sector of a sample = floor(nsect*theta/2pi) of the normalised rotated increment target-sample (orientation read from the code; the claim tested is the quota logic)",
+                     "cross-validation excludes samples closer than 1e-9 to the target; k-fold excludes samples with the target's code",
+                     "ties and samples on the radius / sector limits are removed by construction",
+                     "ball search compared only where the nmaxi-nearest restriction provably cannot change the defined set (the property's precondition)",
+                     "the default space dimension is set to the data dimension before objects are created"],
+        subs=[
+            sub("neigh_select", "c06_neigh", 12000, 400000),
+            sub("neigh_api", "c06_neigh", 2500, 60000),
+            sub("ball_knn", "c06_neigh", 3000, 100000),
+        ]),
 }
